@@ -4,18 +4,23 @@ UNITS = ["coap_uri.c", "coap_option.c", "coap_pdu.c", "coap_str.c", "coap_encode
 EXTRA = ["common/env.c"]
 
 META = {
-    "bounds": "L1: dots() on every segment of length <= 5 (quick) / 7 (thorough) and check_segment() on every segment of "
+    "bounds": "B1: coap_split_uri and coap_split_proxy_uri on \"<scheme>://\" (each of the 8 schemes, concrete) followed by every tail of "
+              "k bytes (coap: k <= 5 quick / 7 thorough; other schemes k = 3-4 quick / <= 6 thorough) and on every string of <= 4 (quick) / 6 "
+              "(thorough) bytes without a scheme, exact-size input object, symbolic build support for DTLS/TCP/TLS/WS/WSS: accept/reject, scheme, "
+              "host (reg-name or inside of an IPv6 literal), port (explicit or scheme default, 0 for Unix-domain), path and query slices equal "
+              "an independent RFC 7252 6.1/6.2 splitter; L1: dots() on every segment of length <= 5 (quick) / 7 (thorough) and check_segment() on every segment of "
               "length <= 4 / 6, exact-size objects, full byte alphabet; B2: coap_split_path and coap_split_query on every string of "
               "length <= 3 (quick) / 4-6 (thorough), output buffer sizes {0,1,2,n,2n+2}: nothing written outside the buffer, and for "
               "well-formed escapes with a sufficient buffer the emitted options equal the reference list (RFC 3986 5.2.4 dot-segment "
               "removal, escapes decoded exactly once); B3: coap_get_uri_path / coap_get_query on requests with 1-2 options of "
               "length 0..2 and every byte value: exact allocation, well-formed output, reference splitter gives back the option "
               "values (left inverse = injectivity).",
-    "outside": "coap_split_uri / coap_split_proxy_uri (scheme, host, port) and the heap-allocating coap_*_into_optlist helpers are "
-               "not encoded in this version; strings longer than the per-job n; more than 2 options of more than 2 bytes in B3; "
+    "outside": "B1: tails longer than k (hence ports of more than k-2 digits, hosts longer than k); character-class validity of the host "
+               "(libcoap does not check it; the reference does not either); the heap-allocating coap_*_into_optlist helpers are "
+               "not encoded in this version (C18 drives coap_uri_into_optlist under allocation failure only); strings longer than the per-job n; more than 2 options of more than 2 bytes in B3; "
                "literal '.'/'..' Uri-Path option values in B3 (never produced by RFC 7252 6.4)",
     "assumptions": ["reference splitter/decoder inside harness/C16/c16.c written from RFC 3986 2.1/5.2.4 and RFC 7252 6.4",
-                    "isxdigit() through a C-locale model of glibc's __ctype_b_loc table", "B3: capacity allocator (64-byte blocks with canary) instead of symbolic-size objects"],
+                    "B1: coap_{dtls,tcp,tls,ws,wss}_is_supported() replaced by symbolic 0/1 stubs (the reference rejects an unsupported scheme)", "isxdigit() through a C-locale model of glibc's __ctype_b_loc table", "B3: capacity allocator (64-byte blocks with canary) instead of symbolic-size objects"],
 }
 
 
@@ -53,4 +58,30 @@ def jobs():
                           tier="quick" if l1 + l2 <= 2 else "thorough", group="B3-get-" + qn, termination=True, timeout=1800, est_gb=4,
                           desc="coap_get_%s on %d option(s) of length %d/%d, every byte value: exact allocation, injective" % (qn.replace("-", "_"), nseg, l1, l2),
                           bounds={"segments": nseg, "lengths": [l1, l2]}))
+    # B1: coap_split_uri / coap_split_proxy_uri
+    names = ["coap", "coaps", "coap+tcp", "coaps+tcp", "http", "https", "coap+ws", "coaps+ws"]
+    for n in range(0, 7):
+        for px in (0, 1):
+            js.append(Job("B1-split-uri@noscheme-n%d%s" % (n, "-proxy" if px else ""), "C16/c16.c", "c16_b1_split_uri", UNITS, extra_src=EXTRA,
+                          defines=["B1", "NOSCHEME", "N=%d" % n, "PROXY=%d" % px, "ENV_NO_ALLOC"], unwind=n + 12,
+                          tier="quick" if n <= 4 else "thorough", group="B1-split-uri", termination=True, timeout=900, est_gb=3,
+                          desc="coap_split_%suri on every %d-byte string (too short for a scheme): only abs-path[?query] accepted" % ("proxy_" if px else "", n),
+                          bounds={"n": n, "proxy": px}))
+    for sch, nm in enumerate(names):
+        for k in range(0, 8):
+            for px in (0, 1):
+                if sch == 0 and not px:
+                    tier = "quick" if k <= 5 else "thorough"
+                elif k == 3 or (k == 4 and px == (sch >= 4)):
+                    tier = "quick"
+                elif k <= 6:
+                    tier = "thorough"
+                else:
+                    continue
+                js.append(Job("B1-split-uri@%s-k%d%s" % (nm, k, "-proxy" if px else ""), "C16/c16.c", "c16_b1_split_uri", UNITS, extra_src=EXTRA,
+                              defines=["B1", "SCH=%d" % sch, "K=%d" % k, "PROXY=%d" % px, "ENV_NO_ALLOC"], unwind=k + 24,
+                              tier=tier, group="B1-split-uri", termination=True, timeout=1800, est_gb=3,
+                              desc="coap_split_%suri on \"%s://\" + every %d-byte tail: accept/reject, scheme, host, port, path, query vs reference; reads inside the exact-size input"
+                                   % ("proxy_" if px else "", nm, k),
+                              bounds={"scheme": nm, "tail_bytes": k, "proxy": px}))
     return js
